@@ -549,3 +549,188 @@ func returnsFreshObject(fn *ssa.Function, depth int) bool {
 	}
 	return n > 0
 }
+
+func init() {
+	register(&Rule{ID: "OWN-node-escape", Props: []string{"C01", "C20"}, Min: 10,
+		Doc: "O: a slice or map loaded from a field of a compiled node is only read (ranged, indexed, measured, resliced, passed to callees that only read it): it is never stored into another structure, so no mutable alias of a compiled program's internals is handed to run-time objects",
+		Run: ruleOwnNodeEscape})
+}
+
+// readOnlyUses: every use of v (a slice/map value) is a read; returns the first offending instruction otherwise.
+func readOnlyUses(v ssa.Value, depth int, seen map[ssa.Value]bool) ssa.Instruction {
+	if seen[v] {
+		return nil
+	}
+	seen[v] = true
+	refs := v.Referrers()
+	if refs == nil {
+		return nil
+	}
+	for _, ref := range *refs {
+		switch x := ref.(type) {
+		case *ssa.Range, *ssa.Lookup, *ssa.Index, *ssa.DebugRef:
+		case *ssa.IndexAddr:
+			// address of an element: must only be loaded
+			for _, r2 := range *x.Referrers() {
+				switch y := r2.(type) {
+				case *ssa.UnOp:
+				case *ssa.Store:
+					if y.Addr == ssa.Value(x) {
+						return y
+					}
+				case *ssa.DebugRef:
+				default:
+					return r2
+				}
+			}
+		case *ssa.Slice:
+			if bad := readOnlyUses(x, depth, seen); bad != nil {
+				return bad
+			}
+		case *ssa.Phi:
+			if bad := readOnlyUses(x, depth, seen); bad != nil {
+				return bad
+			}
+		case *ssa.BinOp: // comparison with nil
+		case *ssa.Store:
+			if x.Val == v {
+				// storing into a local variable cell is fine if the cell's loads are read-only too
+				if cell, ok := x.Addr.(*ssa.Alloc); ok {
+					if bad := cellReadOnly(cell, depth, seen); bad != nil {
+						return bad
+					}
+					continue
+				}
+				return x
+			}
+		case ssa.CallInstruction:
+			cc := x.Common()
+			if bi, ok := cc.Value.(*ssa.Builtin); ok {
+				switch bi.Name() {
+				case "len", "cap":
+					continue
+				case "copy":
+					if cc.Args[0] == v {
+						return x // destination
+					}
+					continue
+				case "append":
+					if cc.Args[0] == v {
+						return x // may write into spare capacity of the node's slice
+					}
+					continue
+				}
+				return x
+			}
+			callee := cc.StaticCallee()
+			if callee == nil || callee.Blocks == nil || depth >= 3 {
+				return x
+			}
+			for i, a := range cc.Args {
+				if a != v {
+					continue
+				}
+				if i < len(callee.Params) {
+					if bad := readOnlyUses(callee.Params[i], depth+1, seen); bad != nil {
+						return bad
+					}
+				}
+			}
+		case *ssa.Return:
+			return x
+		default:
+			return ref
+		}
+	}
+	return nil
+}
+
+func ruleOwnNodeEscape(c *Ctx, r *R) {
+	_, ei, _, si := ottoNodeIfaces(c)
+	if ei == nil || si == nil {
+		r.undecided("anchors", "-", "UNRESOLVED node interfaces")
+		return
+	}
+	nodeTypes := map[*types.TypeName]bool{}
+	for _, i := range []*types.Interface{ei, si} {
+		for _, n := range c.implementors(i, "") {
+			nodeTypes[n.Obj()] = true
+		}
+	}
+	for _, extra := range []string{"nodeProgram", "nodeProperty"} {
+		if n := c.LookupType("", extra); n != nil {
+			nodeTypes[n.Obj()] = true
+		}
+	}
+	for _, fn := range c.AllSrcFuncs("") {
+		if isCompilerFunc(fn) {
+			continue
+		}
+		for _, b := range fn.Blocks {
+			for _, ins := range b.Instrs {
+				ld, ok := ins.(*ssa.UnOp)
+				if !ok {
+					continue
+				}
+				nt, f := fieldOfAddr(ld.X)
+				if nt == nil || !nodeTypes[nt.Obj()] {
+					continue
+				}
+				switch f.Type().Underlying().(type) {
+				case *types.Slice, *types.Map:
+				default:
+					continue
+				}
+				if fa, ok := ld.X.(*ssa.FieldAddr); ok {
+					if _, fresh := fa.X.(*ssa.Alloc); fresh {
+						continue
+					}
+				}
+				key := fmt.Sprintf("load:%s:%s.%s", ssaFuncName(fn), nt.Obj().Name(), f.Name())
+				bad := readOnlyUses(ld, 0, map[ssa.Value]bool{})
+				if bad == nil {
+					r.ok(key, c.Pos(instrPos(ins)), "only read")
+				} else {
+					r.bad(key, c.Pos(instrPos(ins)), fmt.Sprintf("the %s held in compiled node field %s.%s escapes from read-only use at %s (%s in %s): run-time objects get a mutable alias of the compiled program, so running a script can change the Script for every later run and every runtime sharing it",
+						f.Type(), nt.Obj().Name(), f.Name(), c.Pos(instrPos(bad)), describeInstr(bad), ssaFuncName(bad.Parent())))
+				}
+			}
+		}
+	}
+}
+
+// cellReadOnly: a local variable cell (possibly captured by closures) holding the value is only ever loaded for reading.
+func cellReadOnly(cell ssa.Value, depth int, seen map[ssa.Value]bool) ssa.Instruction {
+	refs := cell.Referrers()
+	if refs == nil {
+		return nil
+	}
+	for _, r2 := range *refs {
+		switch y := r2.(type) {
+		case *ssa.UnOp:
+			if bad := readOnlyUses(y, depth, seen); bad != nil {
+				return bad
+			}
+		case *ssa.Store:
+			if y.Addr != cell {
+				return y // the cell's address itself escapes
+			}
+		case *ssa.MakeClosure:
+			fn, ok := y.Fn.(*ssa.Function)
+			if !ok {
+				return y
+			}
+			for i, b := range y.Bindings {
+				if b == cell && i < len(fn.FreeVars) {
+					if bad := cellReadOnly(fn.FreeVars[i], depth, seen); bad != nil {
+						return bad
+					}
+				}
+			}
+		case *ssa.DebugRef:
+		default:
+			return r2
+		}
+	}
+	return nil
+}
